@@ -203,6 +203,8 @@ theorem decodeTokens_loc {ll dl : List Nat} (hl : validLengths ll = true) (hd : 
   | succ fuel ih =>
     intro plain bs ts plain' rest h
     rw [decodeTokens] at h
+    have hg : ¬ plain.size > PLAIN_LIMIT := fun hc => by rw [if_pos hc] at h; cases h
+    rw [if_neg hg] at h
     simp only [bind_eq_ok] at h
     obtain ⟨⟨sym, bs1⟩, h1, h⟩ := h
     simp only at h
@@ -217,7 +219,7 @@ theorem decodeTokens_loc {ll dl : List Nat} (hl : validLengths ll = true) (hd : 
       refine ⟨p1 ++ p2, by rw [e1, e2, List.append_assoc], by simp; omega, ?_⟩
       intro fuel' rest' hf
       obtain ⟨f, rfl⟩ : ∃ f, fuel' = f + 1 := ⟨fuel' - 1, by omega⟩
-      rw [decodeTokens]
+      rw [decodeTokens, if_neg hg]
       simp only [List.append_assoc, a1, ok_bind, hs, if_true, a2 f rest' (by simp at hf; omega)]
     · rename_i hs
       split at h
@@ -227,7 +229,7 @@ theorem decodeTokens_loc {ll dl : List Nat} (hl : validLengths ll = true) (hd : 
         refine ⟨p1, e1, hp1, ?_⟩
         intro fuel' rest' hf
         obtain ⟨f, rfl⟩ : ∃ f, fuel' = f + 1 := ⟨fuel' - 1, by omega⟩
-        rw [decodeTokens]
+        rw [decodeTokens, if_neg hg]
         simp only [a1, ok_bind, if_neg hs, if_pos hs2]
       · rename_i hs2
         split at h
@@ -257,7 +259,7 @@ theorem decodeTokens_loc {ll dl : List Nat} (hl : validLengths ll = true) (hd : 
                 by simp; omega, ?_⟩
               intro fuel' rest' hf
               obtain ⟨f, rfl⟩ : ∃ f, fuel' = f + 1 := ⟨fuel' - 1, by omega⟩
-              rw [decodeTokens]
+              rw [decodeTokens, if_neg hg]
               simp only [List.append_assoc, a1, ok_bind, if_neg hs, if_neg hs2, if_neg hlc, a2, a3,
                 if_neg hdc, a4, if_neg hdist, a5 f rest' (by simp at hf; omega)]
 
@@ -301,6 +303,9 @@ theorem readBlock_loc {plain : Array Nat} {bs : Bits} {last : Bool} {b : Block} 
     split at h
     · simp only [throw_bind_eq_ok] at h
     · rename_i hsum
+      split at h
+      · simp only [throw_bind_eq_ok] at h
+      rename_i hg
       simp only [bind_eq_ok] at h
       obtain ⟨⟨data, bs6⟩, h6, h⟩ := h
       simp only [Except.ok.injEq, Prod.mk.injEq] at h
@@ -317,7 +322,7 @@ theorem readBlock_loc {plain : Array Nat} {bs : Bits} {last : Bool} {b : Block} 
         simp only [List.length_append]
         omega
       rw [readBlock]
-      simp only [List.append_assoc, a1, ok_bind, a2, if_pos hmode, hlen, a3, a4, a5, if_neg hsum, a6]
+      simp only [List.append_assoc, a1, ok_bind, a2, if_pos hmode, hlen, a3, a4, a5, if_neg hsum, if_neg hg, a6]
   · split at h
     · -- fixed
       rename_i hm0 hmode
